@@ -312,4 +312,76 @@ def h5NameAttr (g : String) (name : Option String) : Option (Option String) :=
   else if g = "hasattr(neuron, 'name')" then name.map some
   else none
 
+
+/-! ### VoxelNeuron: is the dense grid that `write_nrrd` exports the neuron's *current* content?
+
+`VoxelNeuron.grid` of a neuron built from sparse voxels is materialised once and cached (`_grid`, listed in
+`TEMP_ATTR`). The grid is a function of two fields: `_data` (voxel coordinates; hashed – `CORE_DATA`) and `_values`
+(per-voxel values; NOT hashed). The `@temp_property` wrapper drops the caches when the hash of the hashed fields
+differs from the one recorded at the last validation; a field that is not hashed is protected only by the explicit
+`_clear_temp_attr()` of whatever assigns it. Contents are abstract version numbers. -/
+
+structure VoxFacts where
+  hashedD : Bool      -- `_data` ∈ CORE_DATA
+  hashedV : Bool      -- `_values` ∈ CORE_DATA
+  clearsD : Bool      -- every method / setter assigning `_data` calls `_clear_temp_attr()`
+  clearsV : Bool      -- every method / setter assigning `_values` calls `_clear_temp_attr()`
+  gridIsTemp : Bool   -- `_grid` ∈ TEMP_ATTR (so clearing removes it)
+deriving Repr, DecidableEq
+
+structure VoxSt where
+  d : Nat                       -- current content of `_data`
+  v : Nat                       -- current content of `_values`
+  sd : Nat                      -- content of `_data` the recorded checksum belongs to
+  sv : Nat
+  cache : Option (Nat × Nat)    -- `_grid`: built from these versions of (`_data`, `_values`)
+deriving Repr, DecidableEq
+
+inductive VoxOp where
+  | setData (n : Nat)           -- `n.voxels = …` / `n.grid = …` / threshold / strip
+  | setValues (n : Nat)         -- `n.values = …`
+  | read                        -- `n.grid` (what `_write_nrrd` exports)
+deriving Repr, DecidableEq
+
+/-- the `@temp_property` wrapper: stale ⇒ clear and re-stamp -/
+def voxValidate (f : VoxFacts) (s : VoxSt) : VoxSt :=
+  if (f.hashedD && s.sd != s.d) || (f.hashedV && s.sv != s.v) then
+    { s with cache := if f.gridIsTemp then none else s.cache, sd := s.d, sv := s.v }
+  else s
+
+/-- the `grid` getter: cached value if present, else build from the current fields and cache it -/
+def voxRead (f : VoxFacts) (s : VoxSt) : (Nat × Nat) × VoxSt :=
+  let s := voxValidate f s
+  match s.cache with
+  | some g => (g, s)
+  | none => ((s.d, s.v), { s with cache := some (s.d, s.v) })
+
+def voxStep (f : VoxFacts) (s : VoxSt) : VoxOp → VoxSt
+  | .setData n => { s with d := n, cache := if f.clearsD && f.gridIsTemp then none else s.cache }
+  | .setValues n => { s with v := n, cache := if f.clearsV && f.gridIsTemp then none else s.cache }
+  | .read => (voxRead f s).2
+
+def voxRun (f : VoxFacts) (s : VoxSt) (ops : List VoxOp) : VoxSt := ops.foldl (voxStep f) s
+
+/-- every field the grid depends on is hashed or cleared by hand, and clearing removes the grid -/
+def VoxFacts.safe (f : VoxFacts) : Bool := (f.hashedD || f.clearsD) && (f.hashedV || f.clearsV) && f.gridIsTemp
+
+/-- the cached grid, if any, was built from the stamped version of every hashed field and from the current version of
+every other field -/
+def VoxInv (f : VoxFacts) (s : VoxSt) : Prop :=
+  ∀ g, s.cache = some g → (if f.hashedD then s.sd = g.1 else g.1 = s.d) ∧ (if f.hashedV then s.sv = g.2 else g.2 = s.v)
+
+/-- a method of the class that assigns data fields: name, fields assigned, calls `_clear_temp_attr()`? -/
+structure VoxAssign where
+  name : String
+  fields : List String
+  clears : Bool
+deriving Repr, DecidableEq
+
+def voxFactsOf (coreData tempAttr : List String) (assigns : List VoxAssign) : VoxFacts :=
+  { hashedD := coreData.contains "_data", hashedV := coreData.contains "_values",
+    clearsD := (assigns.filter (·.fields.contains "_data")).all (·.clears),
+    clearsV := (assigns.filter (·.fields.contains "_values")).all (·.clears),
+    gridIsTemp := tempAttr.contains "_grid" }
+
 end Navis.IoMeta
